@@ -19,6 +19,7 @@ from vsc.model.expr_array_subscript_model import ExprArraySubscriptModel
 from vsc.model.expr_bin_model import ExprBinModel
 from vsc.model.expr_cond_model import ExprCondModel
 from vsc.model.expr_in_model import ExprInModel
+from vsc.model.expr_partselect_model import ExprPartselectModel
 from vsc.model.expr_range_model import ExprRangeModel
 from vsc.model.expr_rangelist_model import ExprRangelistModel
 from vsc.model.expr_unary_model import ExprUnaryModel
@@ -178,7 +179,12 @@ class ConstraintCopyBuilder(ModelVisitor):
         
     def visit_constraint_unique(self, c:ConstraintUniqueModel):
         if self.do_copy_level > 0:
-            self.constraints.append(c.clone())
+            # Copy the operands, such that index references
+            # are expanded for each iteration of a foreach
+            ret = ConstraintUniqueModel(
+                [self.expr(e) for e in c.unique_l])
+            ret.srcinfo = c.srcinfo
+            self.constraints.append(ret)
         else:
             super().visit_constraint_unique(c)
         
@@ -253,6 +259,15 @@ class ConstraintCopyBuilder(ModelVisitor):
         else:
             super().visit_expr_unary(e)
         
+    def visit_expr_partselect(self, e):
+        if self.do_copy_level > 0:
+            self._expr = ExprPartselectModel(
+                self.expr(e.lhs),
+                e.upper,
+                e.lower)
+        else:
+            super().visit_expr_partselect(e)
+            
     def visit_expr_array_subscript(self, s):
         if self.do_copy_level > 0:
             self._expr = ExprArraySubscriptModel(
